@@ -134,7 +134,8 @@ def run(ctx):
         r = x / K
         z = kz / K
         krho_max = {"inside": 60.0, "to_cutoff": 380.0, "beyond_cutoff": 520.0}[c["rho"]]
-        krho = np.array([0.0, 0.13, 0.4, 0.77, 1.0]) * krho_max
+        # (not in increasing order: a call may list far points before near ones)
+        krho = np.array([1.0, 0.13, 0.77, 0.0, 0.4]) * krho_max
         phis = np.array([0.3, 1.9, 3.1, 4.4, 5.9])
         det = detector_points(x=krho / K * np.cos(phis), y=krho / K * np.sin(phis), z=0.0)
         sc = Sphere(n=m * NMED, r=r, center=(0.0, 0.0, z))
@@ -181,6 +182,12 @@ def run(ctx):
             np0 = int(30 + 0.9 * krho_max * math.sin(ang) + 1.5 * x)
             ladder = [(nt0, np0), (int(1.5 * nt0), int(1.3 * np0) + 1), (2 * nt0, 2 * np0)]
             vals = [field(Lens(ang, Mie(False, False), a, b)) for a, b in ladder]
+            # a theory object made by from_parameters (what a fit over the lens angle does) is the theory
+            # the constructor makes for that angle
+            ang0 = 0.7 * ang + 0.1
+            fp_l = field(Lens(ang0, Mie(False, False), *ladder[0]).from_parameters({"lens_angle": ang}))
+            fp_m = field(MieLens(lens_angle=ang0, calculator_accuracy_kwargs=off).from_parameters({"lens_angle": ang}))
+            ev["mb_from_parameters"] = quant.mb(max(rel(fp_l, vals[0], scale), rel(fp_m, d_off, scale)))
             ev["mb_step1"] = quant.mb(rel(vals[1], vals[0], scale))
             ev["mb_step2"] = quant.mb(rel(vals[2], vals[1], scale))
             ev["mb_lens_last"] = quant.mb(rel(vals[2], ref, scale))
